@@ -631,8 +631,8 @@ pub fn plan_for(id: &str, tier: &str) -> Option<Plan> {
             p.binary_every = if thorough { 6 } else { 16 };
             p.n_random = n(140, 2500);
             p.long = (n(1, 12), n(400, 2000));
-            p.required = vec!["AddSnapshot|", "|conflict", "|accepted"];
-            p.rule = "every accepted (version, parent, payload) is re-read through GetChildVersion after later operations (a random third after every operation, all of them every 10 operations, after every reopen and at the end), across snapshots, rejected requests, other clients' activity and reopen. distinct_nontrivial = distinct situations that occurred while accepted versions were being re-read. Concurrent part: uncontrolled stress (6-12 threads on one storage / one SQLite object per thread / sockets) after which every version whose acceptance was acknowledged must still be served with its parent and payload.";
+            p.required = vec!["AddSnapshot|", "|conflict", "|accepted", "legacy-fork-directory:abandoned1:live1:nil-base", "legacy-fork-directory:abandoned3:live"];
+            p.rule = "every accepted (version, parent, payload) is re-read through GetChildVersion after later operations (a random third after every operation, all of them every 10 operations, after every reopen and at the end), across snapshots, rejected requests, other clients' activity and reopen. distinct_nontrivial = distinct situations that occurred while accepted versions were being re-read. Concurrent part: uncontrolled stress (6-12 threads on one storage / one SQLite object per thread / sockets) after which every version whose acceptance was acknowledged must still be served with its parent and payload. Legacy forks: directories written by the pinned crates in which a client was re-created (two children of one parent) - the pinned code's answers for every id are the reference for the current code, before and after appending.";
         }
         "C08" => {
             p.property = "C08";
@@ -655,7 +655,7 @@ pub fn plan_for(id: &str, tier: &str) -> Option<Plan> {
             p.profile.min_clients = 3;
             p.profile.max_clients = 4;
             p.profile.max_ops = 80;
-            p.required = vec!["arg=foreign", "concurrent-clients|SqlitePerThread", "concurrent-clients|SocketSqlite", "overlapping-uploads-of-two-clients|workers=1"];
+            p.required = vec!["arg=foreign", "concurrent-clients|SqlitePerThread", "concurrent-clients|SocketSqlite", "overlapping-uploads-of-two-clients|workers=1", "id-space-overlap|mem/lib", "id-space-overlap|sqlite/http", "shared-header-values|mem/http|Idempotency-Key", "shared-header-values|sqlite/http|Cookie"];
             p.rule = "two-run non-interference: each multi-client history is run in full, then the projection onto each client is re-run alone with foreign ids resolved to the same concrete uuids; responses compared one-to-one modulo the client's own ids; in the full run every other client's dump must be unchanged by each operation. Half of the histories are aligned (all bases nil, equal payload lengths). Concurrent part: 3-5 clients, one thread each, act at the same time (one shared server on the in-memory backend / on one SQLite object, one server instance per thread on one SQLite directory, an HttpServer over sockets); every client's adaptive request sequence is then re-run alone on a fresh server of the same kind and the transcripts (ids named by first appearance) must be identical; two clients' uploads that overlap on one server worker must each be stored with their own bytes.";
         }
         "C10" => {
